@@ -59,6 +59,51 @@ CLAIMS = {
         ),
         design_ref="DESIGN.md §4 C19",
     ),
+    "C03": dict(
+        technique="static analysis: sibling agreement of argument provenance (estimate vs add), guard/table rules on protocol dispatch, def-use provenance of conflict delays and of the alignment delay",
+        text=(
+            "Decides the structural necessary conditions of 'estimate equals inserted delay', 'conflicts wait for the other pulse's fall time' and 'align ends together': estimate_added_delay and _add reach the same slot constructor "
+            "with identical argument provenance; the conflict scan runs iff protocol != 'no-delay', conflicts are overlap-or-wait-for-all, every use of another channel's end adds its fall time (2*rise_time for non-pulses), "
+            "phase barriers bound the start; align's target is the max end (with fall time iff at_rest) and each channel is delayed by target minus its plain end. Minimality and numeric fall times are not decided."
+        ),
+        design_ref="DESIGN.md §4 C03",
+    ),
+    "C07": dict(
+        technique="static analysis: def-use provenance (FLOW) and pass-through rules over the phase-reference bookkeeping",
+        text=(
+            "Decides the structural necessary conditions of additive, always-applied phase references: stored phases pass `% 2*pi` at every write site, increments are last_phase + phi at last_used, the phase reference of the "
+            "targets reaches the scheduled pulse additively, phase barriers come from last_time of the targets, last_used and post-phase-shifts are applied to the same targets and basis after the add, multi-reference targets are rejected. "
+            "The emulated z-rotation is runtime physics and is not decided."
+        ),
+        design_ref="DESIGN.md §4 C07",
+    ),
+    "C08": dict(
+        technique="static analysis: write-effect summary of build (template untouched, replay on fresh object), structural FLOW rules on argument building and cache invalidation pairing",
+        text=(
+            "Decides the structural necessary conditions of 'build equals direct construction and never alters the template': build's non-fresh write summary is only Variable.value/_count, replay receivers are fresh objects, "
+            "all args and kwargs (and ParamObj's own args/kwargs/cls) pass .build() when Parametrized and those built values are what is replayed, in call order; every write of Variable.value bumps _count and ParamObj's cache is keyed on all counters; "
+            "mappable registers and index targeting resolve in declared order. Equality of built sequences is runtime and is not decided."
+        ),
+        design_ref="DESIGN.md §4 C08",
+    ),
+    "C10": dict(
+        technique="static analysis: def-use provenance and enclosing-condition extraction for the phase-jump buffer and the retarget duration",
+        text=(
+            "Decides that the required sources flow into the inserted delays: phase_jump_time, 2*rise_time in EOM mode, the previous pulse's fall time and the elapsed time into the phase-jump buffer (only when the phase changes and "
+            "the protocol is not 'no-delay', combined by max with the conflict delay); min_retarget_interval, last target time and fixed_retarget_t into the retarget duration (through adjust_duration), after waiting for the fall time, "
+            "with the same-target early return before any append; phase_jump_time = custom if not None else 2*rise_time. The inequalities themselves are numeric and not decided."
+        ),
+        design_ref="DESIGN.md §4 C10",
+    ),
+    "C15": dict(
+        technique="static analysis: def-use provenance of EOM setpoints and buffers; index-agreement rule in calculate_detuning_off",
+        text=(
+            "Decides the structural necessary conditions of 'EOM pulses use the chosen setpoint, idle at the off-detuning, are buffered': pulse amplitude/detuning come from the open block's rabi_freq/detuning_on, detuned delays and the buffer "
+            "from its detuning_off, _EOMSettings slots are filled from the matching arguments, detuning_off = options[argmin|options-optimum|] with the switching beams picked by the same index over the same combos list, buffers are "
+            "adjust_duration(_eom_buffer_time) after waiting for the fall time, disable closes the block at the current end. Drift-correction populations are emulator physics and not decided."
+        ),
+        design_ref="DESIGN.md §4 C15",
+    ),
     "C04": dict(
         technique="static analysis: multi-way table agreement (abstract interpretation of serializer branches, deserializer branch keys/defaults, JSON-schema definitions, method signatures, operator tables), all extracted from source on every run",
         text=(
